@@ -57,8 +57,9 @@ type job struct {
 }
 
 type result struct {
-	Idx int       `json:"idx"`
-	Obs []StepObs `json:"obs"`
+	Idx    int       `json:"idx"`
+	Obs    []StepObs `json:"obs"`
+	Reruns int       `json:"reruns,omitempty"` // runs repeated after a DEPLOY time-out with every task ACTIVE
 }
 
 // ---------------------------------------------------------------- running one case
@@ -99,13 +100,62 @@ func expectAfterCmd(view [][2]int, ev string, oc []string) [][2]int {
 	return out
 }
 
-func runCase(w *c0203.World, idx int, in Input) (obsOut []StepObs, wedged bool) {
+// Time-outs.  The deploy_timeout of the generated workflow is generous when the case scripts every
+// task to launch (a deployment that is expected to go through must not fail because the machine is
+// busy; when it goes through the time-out costs nothing) and short only where the script makes the
+// deployment fail, possibly by running into that time-out: those cases fail whenever the time-out
+// fires, so nothing they observe depends on its length.  Every wait below returns as soon as its
+// condition holds; the bounds only decide when a deviation is given up on.
+const (
+	deployTimeoutOK   = "10s"
+	deployTimeoutFail = "1200ms"
+	settleFor         = 3 * time.Second
+	maxReruns         = 2
+)
+
+// deploymentScriptedToSucceed: the workflow has a role and every task is scripted to launch.
+func deploymentScriptedToSucceed(in Input) bool {
+	if len(in.Tasks) == 0 && in.NCalls == 0 {
+		return false
+	}
+	for i := range in.Tasks {
+		if i < len(in.Launch) && in.Launch[i] != "" && in.Launch[i] != "run" {
+			return false
+		}
+	}
+	return true
+}
+
+// runCase runs one case; it is run again (at most maxReruns times, counted in the evidence) when its
+// only anomaly is a DEPLOY that timed out although every task was launched and seen ACTIVE in the
+// roster: the loss of the status notification (non-blocking send to the DEPLOY loop) is a scheduling
+// accident outside the model (props.d assumptions; C03 analyses it).  A deployment that keeps timing
+// out is reported as it is.
+func runCase(w *c0203.World, idx int, in Input) (obsOut []StepObs, wedged bool, reruns int) {
+	for try := 0; ; try++ {
+		obs, wedged, accident := runCaseOnce(w, idx, try, in)
+		if accident && !wedged && try < maxReruns {
+			reruns++
+			fmt.Fprintf(os.Stderr, "case %d: DEPLOY timed out with every task ACTIVE, run again (%d)\n", idx, reruns)
+			continue
+		}
+		return obs, wedged, reruns
+	}
+}
+
+func runCaseOnce(w *c0203.World, idx int, try int, in Input) (obsOut []StepObs, wedged bool, accident bool) {
 	name := fmt.Sprintf("w%d", idx)
+	if try > 0 {
+		name = fmt.Sprintf("w%dr%d", idx, try)
+	}
 	var calls []c0203.Call
 	for i := 0; i < in.NCalls; i++ {
 		calls = append(calls, c0203.Call{Id: fmt.Sprintf("%s-k%d", name, i), Trigger: "after_RESET", Critical: false})
 	}
-	hang := 3500 * time.Millisecond
+	deployTimeout, hang := deployTimeoutFail, 3500*time.Millisecond
+	if deploymentScriptedToSucceed(in) {
+		deployTimeout, hang = deployTimeoutOK, 13500*time.Millisecond
+	}
 	heavy := false
 	for i, l := range in.Launch {
 		if i < len(in.Tasks) && in.Tasks[i].Crit && (l == "nooffer" || l == "nores") {
@@ -113,10 +163,10 @@ func runCase(w *c0203.World, idx int, in Input) (obsOut []StepObs, wedged bool) 
 		}
 	}
 	if slow(in.Cfg) {
-		hang = 140 * time.Second
+		hang = 150 * time.Second
 	}
 	t0 := time.Now()
-	env, cr := w.Create(name, in.Tasks, in.Launch, in.Cfg, calls, "1200ms", hang)
+	env, cr := w.Create(name, in.Tasks, in.Launch, in.Cfg, calls, deployTimeout, hang)
 	var obs []StepObs
 	first := StepObs{Err: cr.Err != nil, Hang: cr.Hang, Reported: env.Reported(), Cmded: env.Commanded("CONFIGURE"), Tasks: [][2]int{}}
 	if cr.Err != nil {
@@ -137,7 +187,11 @@ func runCase(w *c0203.World, idx int, in Input) (obsOut []StepObs, wedged bool) 
 	}
 	if (cr.Hang && len(first.Reported) == 0) || (!alive && launchable && env.Accepts() == 0) {
 		dumpStacks(fmt.Sprintf("case %d: deployment verdict lost / core wedged", idx))
-		return nil, true
+		return nil, true, false
+	}
+	if cr.Err != nil && !cr.Hang && deploymentScriptedToSucceed(in) && strings.Contains(cr.Err.Error(), "workflow deployment timed out") &&
+		env.AllRunActive(in.Launch) {
+		accident = true
 	}
 	if cr.Hang {
 		first.State = c0203.EnvStateCode[env.State()]
@@ -151,7 +205,7 @@ func runCase(w *c0203.World, idx int, in Input) (obsOut []StepObs, wedged bool) 
 		for i := range view {
 			view[i] = [2]int{1, 3}
 		}
-		view = env.Settle(expectAfterCmd(view, "CONFIGURE", in.Cfg), 400*time.Millisecond)
+		view = env.Settle(expectAfterCmd(view, "CONFIGURE", in.Cfg), settleFor)
 		first.Tasks = view
 	}
 	obs = append(obs, first)
@@ -163,7 +217,7 @@ func runCase(w *c0203.World, idx int, in Input) (obsOut []StepObs, wedged bool) 
 	}
 	if !alive {
 		env.Finish(false)
-		return obs, false
+		return obs, false, accident
 	}
 	for _, op := range in.Ops {
 		var so StepObs
@@ -189,7 +243,7 @@ func runCase(w *c0203.World, idx int, in Input) (obsOut []StepObs, wedged bool) 
 			if srcOf[op.Ev] == before {
 				want = expectAfterCmd(view, op.Ev, op.Oc)
 			}
-			view = env.Settle(want, 400*time.Millisecond)
+			view = env.Settle(want, settleFor)
 			so.Tasks = view
 		case "kill":
 			prev := env.State()
@@ -201,10 +255,10 @@ func runCase(w *c0203.World, idx int, in Input) (obsOut []StepObs, wedged bool) 
 			if op.I < len(want) {
 				want[op.I] = [2]int{4, 1}
 			}
-			view = env.Settle(want, 400*time.Millisecond)
+			view = env.Settle(want, settleFor)
 			if crit {
 				// the watcher waits 500 ms before it asks for GO_ERROR
-				waitFor(1500*time.Millisecond, func() bool { return env.State() == "ERROR" })
+				waitFor(6*time.Second, func() bool { return env.State() == "ERROR" })
 			} else {
 				time.Sleep(5 * time.Millisecond)
 			}
@@ -221,7 +275,7 @@ func runCase(w *c0203.World, idx int, in Input) (obsOut []StepObs, wedged bool) 
 	}
 	last := obs[len(obs)-1]
 	env.Finish(!last.Hang)
-	return obs, false
+	return obs, false, false
 }
 
 var dumped bool
@@ -644,8 +698,13 @@ func childMain(inFile, outFile string, wid int) {
 		os.Exit(2)
 	}
 	enc := json.NewEncoder(f)
+	// warm-up: one small environment through every transition before the first case (first use of the
+	// core's lazily initialised parts, template and class caches, the simulated master's first offers)
+	runCaseOnce(w, 1000000+wid, 0, Input{Tasks: []c0203.Task{{Crit: true, Mode: "direct", Host: 1}, {Crit: false, Mode: "basic", Host: 2}},
+		Launch: []string{"run", "run"}, Cfg: []string{"ack", "ack"},
+		Ops: []Op{{Kind: "cmd", Ev: "START", Oc: []string{"ack", "ack"}}, {Kind: "cmd", Ev: "STOP", Oc: []string{"ack", "ack"}}}})
 	for _, j := range jobs {
-		obs, wedged := runCase(w, j.Idx, j.In)
+		obs, wedged, reruns := runCase(w, j.Idx, j.In)
 		if wedged && os.Getenv("H02_LAST_TRY") == "" {
 			f.Close()
 			os.Exit(3) // the parent starts a fresh worker for this and the remaining cases
@@ -653,7 +712,7 @@ func childMain(inFile, outFile string, wid int) {
 		if obs == nil {
 			obs = []StepObs{}
 		}
-		_ = enc.Encode(result{Idx: j.Idx, Obs: obs}) // one line per case: a crash loses only the rest
+		_ = enc.Encode(result{Idx: j.Idx, Obs: obs, Reruns: reruns}) // one line per case: a crash loses only the rest
 		f.Sync()
 	}
 	f.Close()
@@ -661,6 +720,7 @@ func childMain(inFile, outFile string, wid int) {
 }
 
 var respawns int
+var rerunCases = []int{} // indices of the cases run again after a DEPLOY time-out with every task ACTIVE
 
 func runWorkers(o gen.Opts, jobs []job, workers int) map[int][]StepObs {
 	if workers > len(jobs) {
@@ -710,6 +770,9 @@ func runWorkers(o gen.Opts, jobs []job, workers int) map[int][]StepObs {
 					if json.Unmarshal([]byte(line), &r) == nil {
 						mu.Lock()
 						res[r.Idx] = r.Obs
+						for k := 0; k < r.Reruns; k++ {
+							rerunCases = append(rerunCases, r.Idx)
+						}
 						mu.Unlock()
 						got[r.Idx] = true
 					}
@@ -807,7 +870,8 @@ func main() {
 		}
 		cases = append(cases, gen.Case{Term: caseTerm(j.In, obs), Kind: j.Kind, Input: j.In, Obs: obs})
 	}
-	extra := map[string]any{"workers": workers, "cases_lost_to_worker_crash": lost, "worker_respawns_after_lost_deploy_verdict_or_crash": respawns, "run_s": time.Since(t0).Seconds()}
+	extra := map[string]any{"workers": workers, "cases_lost_to_worker_crash": lost, "worker_respawns_after_lost_deploy_verdict_or_crash": respawns,
+		"reruns_after_deploy_timeout_with_every_task_active": len(rerunCases), "rerun_cases": rerunCases, "run_s": time.Since(t0).Seconds()}
 	if err := gen.WriteCases(o, "C02", "From Verif Require Import Common RoleTree TaskCmd.", "c02_case", "report02", cases, extra); err != nil {
 		fmt.Fprintln(os.Stderr, err)
 		os.Exit(2)
